@@ -533,7 +533,7 @@ func c19GoKind(t reflect.Type) string {
 
 type c19Row struct {
 	owner, field, kind, how string
-	hasSetter, inPlace     bool
+	hasSetter, inPlace      bool
 }
 
 var c19RowRE = regexp.MustCompile(`^def \S+ : Row := ⟨\d+, "([^"]+)", "([^"]+)", \.(\w+), \.(\w+), "(?:[^"\\]|\\.)*", (true|false), (true|false)⟩`)
